@@ -406,6 +406,16 @@ theorem v1_export_context_client (id : Bytes) (hv : validateID id = true) :
     ctxOfName (hmacName id) = V1WriteLog.Op.ctx (.genHmacKey id []) :=
   ctxOfName_client id hv
 
+/-- **… and so are the contexts of the client's rotated keys.** A rotated key file
+`<file>.old/<timestamp>` of a valid client is opened (and re-sealed on import) under the very context
+of the current file – the client id – for every name `time.Parse` accepts as a timestamp: the key
+history of a client survives export ∘ import readable. -/
+theorem v1_export_context_rotated (id ts : Bytes) (hv : validateID id = true) (hts : isTimestamp ts = true) (hne : ts ≠ []) :
+    ctxOfName (histName (storageName id) ts) = V1WriteLog.Op.ctx (.genDataKeys id [] []) ∧
+    ctxOfName (histName (symName id) ts) = V1WriteLog.Op.ctx (.genSymKey id []) ∧
+    ctxOfName (histName (hmacName id) ts) = V1WriteLog.Op.ctx (.genHmacKey id []) :=
+  ctxOfName_client_hist id ts hv hts hne
+
 /-- **The export contexts are the key store's own (repairs 45).** For the poison symmetric key and
 for a rotated poison key pair the context `Export`/`Import` derive from the file name is the one the
 key store seals these keys with (`V1WriteLog.Op.ctx`) … -/
@@ -507,6 +517,8 @@ example :
   decide
 
 example : V1.validateID (Path.ofStr "db_storage_eu") = true := by decide
+
+example : V1.isTimestamp (Path.ofStr "2026-09-23T08:24:04.293923735") = true := by decide
 
 example : SealLaws boxOps ∧ SealCommit boxOps ∧ HashInj boxOps := ⟨Box.sealLaws, Box.sealCommit, Box.hashInj⟩
 
